@@ -21,4 +21,7 @@ macro_rules! registry {
 // one line per property check: "CNN" => cnn
 registry! {
     "C02" => c02,
+    "C04" => c04,
+    "C09" => c09,
+    "C13" => c13,
 }
